@@ -16,7 +16,7 @@
      K <useRes> <Rmask> <err> <ncalls> {<name>}* <nb> {<s> <v> <n> <t> <ds> <dv> <dk>}*   t: 0 mir 1 ext 2 res
      E <nf> {<name> <t> <ds> <dv> <dk>}*      the model's environment at the end (t = -1: no definition)
    err: 0 none 1 repeated_decl 2 undeclared_op_ref 3 import_export
-   Output: FAIL <case> <step> <key> <text>   and a final DONE <cases> <steps> <fails>. */
+   Output: P <case> before every case, FAIL <case> <step> <key> <text>, and a final DONE <cases> <steps> <fails>. */
 #include <stdio.h>
 #include <stdlib.h>
 #include <string.h>
@@ -24,6 +24,7 @@
 #include <setjmp.h>
 #include <stdint.h>
 #include <sys/mman.h>
+#include <unistd.h>
 #include "mir.h"
 #include "mir-gen.h"
 
@@ -307,6 +308,8 @@ int main (void) {
   while (scanf ("%7s", tag) == 1) {
     if (tag[0] == 'C') {
       if (scanf ("%ld %d", &caseno, &engine) != 2) return 3;
+      printf ("P %ld\n", caseno); fflush (stdout); /* progress: a crash or a hang is attributed to the last case started */
+      alarm (20);                                    /* a library call that does not return ends the process (SIGALRM) */
       ncase++; step = 0; bad = 0; n_inst = 0;
       memset (inst, 0, sizeof (inst));
       ctx = MIR_init2 (&l_alloc, &c_alloc);
@@ -448,6 +451,7 @@ int main (void) {
       end_case (!bad && ctx != NULL);
     }
   }
+  alarm (0);
   printf ("DONE %ld %ld %ld\n", ncase, nsteps, nfail);
   return 0;
 }
